@@ -67,6 +67,10 @@ def shards(tier, seed):
     for ri in (0, 2, 4):
         out.append((ri, None, 3, 'ROOT'))
         out.append((ri, None, 3 if tier == 'quick' else 4, 'Root'))
+    # conditional requests (If-Modified-Since in the future): outside names stay 403 / 404, inside files answer 304
+    for ri in (0, 2):
+        for si in range(len(SEGS)):
+            out.append((ri, si, 3, '@IMS'))
     # seed extension: one more segment spelling joins the universe (all names up to 3 segments containing it)
     extra = ['...', 'root/', '.\\', ' ', '%2e%2e', '..;'][seed % 6]
     out.append((0, None, 3, extra))
@@ -78,7 +82,7 @@ def bounds(tier, seed):
             'max_segments': '4 for root 0, 3 otherwise' if tier == 'quick' else '4 for roots 0, 1 and 4, 3 otherwise'}
 
 
-FLOORS = {'nested_root_calls': 1000, 'outside': 1000, 'served_200': 50, 'denied_403': 1000, 'missing_404': 100}
+FLOORS = {'not_modified_304': 20, 'nested_root_calls': 1000, 'outside': 1000, 'served_200': 50, 'denied_403': 1000, 'missing_404': 100}
 
 
 # ---- independent normaliser ----------------------------------------------------------------------------------
@@ -209,8 +213,14 @@ def work(spec):
         opened.append(path)
         return real_open(path, *a, **kw)
     ss.open = rec_open
+    ims = extra == '@IMS'
+    if ims:
+        extra = None
     try:
-        om.request.__init__({'REQUEST_METHOD': 'GET', 'PATH_INFO': '/', 'wsgi.input': None})
+        env0 = {'REQUEST_METHOD': 'GET', 'PATH_INFO': '/', 'wsgi.input': None}
+        if ims:
+            env0['HTTP_IF_MODIFIED_SINCE'] = 'Fri, 01 Jan 2100 00:00:00 GMT'
+        om.request.__init__(env0)
         root = ROOTS[ri].replace('@T', T)
         segs = [s.replace('@TROOT', T + '/root').replace('@T', T) for s in SEGS]
         if extra is not None:
@@ -233,6 +243,8 @@ def work(spec):
             res['states'] += 1
             res['transitions'] += 1
             case = {'root': ROOTS[ri], 'name': name.replace(T, '@T')}
+            if ims:
+                case['ims'] = True
             core.track(res, case)
             del opened[:]
             try:
@@ -264,6 +276,11 @@ def work(spec):
                 elif code in (403, 404):
                     if exp_file is not None:
                         bad = f'{code} for the existing inside file {"/" + "/".join(loc)}'
+                elif code == 304 and ims:
+                    if exp_file is None:
+                        bad = f'304 (If-Modified-Since) for {"/" + "/".join(loc)}, which is {"outside the root" if not inside else "not a regular file of the tree"}'
+                    else:
+                        c['not_modified_304'] += 1
                 else:
                     bad = f'unexpected status {code}'
             if not inside:
@@ -326,7 +343,10 @@ def replay(case):
         return real_open(path, *a, **kw)
     ss.open = rec_open
     try:
-        om.request.__init__({'REQUEST_METHOD': 'GET', 'PATH_INFO': '/', 'wsgi.input': None})
+        env0 = {'REQUEST_METHOD': 'GET', 'PATH_INFO': '/', 'wsgi.input': None}
+        if case.get('ims'):
+            env0['HTTP_IF_MODIFIED_SINCE'] = 'Fri, 01 Jan 2100 00:00:00 GMT'
+        om.request.__init__(env0)
         root = case['root'].replace('@T', T)
         name = case['name'].replace('@T', T)
         filemap = {tuple(norm_abs(os.path.join(T, rel), T)): data for rel, data in FILES.items()}
@@ -351,6 +371,11 @@ def replay(case):
                     f'{where} inside={inside} file={exp_file!r}')
         if code in (403, 404) and exp_file is not None:
             return f'static_file({case["name"]!r}, {case["root"]!r}) answered {code} for the inside file {where}'
+        if code == 304 and case.get('ims'):
+            if exp_file is None:
+                return (f'static_file({case["name"]!r}, {case["root"]!r}) with If-Modified-Since in the future answered 304; normalised location '
+                        f'{where} inside={inside} is not a file inside the root (403 / 404 expected)')
+            return None
         if code not in (200, 403, 404):
             return f'unexpected status {code}'
         return None
